@@ -31,6 +31,10 @@ func readPacket(r io.Reader) (packetType, byte, []byte, error) {
 		if buf[1]&0x80 == 0 {
 			break
 		}
+		if shift >= 21 {
+			// The remaining length field is at most four bytes (MQTT 3.1.1 section 2.2.3).
+			return 0, 0, nil, wrapError(ErrInvalidPacketLength, "remaining length too long")
+		}
 		if _, err := io.ReadFull(r, buf[1:]); err != nil {
 			return 0, 0, nil, err
 		}
